@@ -32,6 +32,17 @@ func c07Eval(v []int) (string, string, bool) {
 		cfg.Listens[0].Backends = []string{"tcp://127.0.1.2:7000"}
 	}
 	enabled := cfg.Listens[0].received()
+	preludeTo := "127.0.0.1:5060"
+	if s.Val(v, "entries") == "hop-behind-opposite-entry" {
+		// a second listens entry with the OPPOSITE setting; the next hop is learned through it, so the
+		// request leaves through it and the response comes back in through it
+		l2 := RListen{Addr: "127.0.0.2", UDP: 5060, TCP: 5062, Backends: []string{"udp://127.0.1.3:7000"}}
+		if enabled {
+			l2.NoReceived = "true"
+		}
+		cfg.Listens = append(cfg.Listens, l2)
+		preludeTo = "127.0.0.2:5060"
+	}
 	w := StartRelayWorld(SimOpts{Main: s.Val(v, "start") == "main"}, cfg)
 	defer w.Close()
 
@@ -57,6 +68,14 @@ func c07Eval(v []int) (string, string, bool) {
 	}
 	if s.Val(v, "received") == "spoofed" {
 		pars = append(pars, "received=10.66.6.6")
+	}
+	if s.Val(v, "manypars") == "20-before" {
+		// a long parameter list ahead of the ones the proxy has to find
+		var many []string
+		for i := 0; i < 20; i++ {
+			many = append(many, fmt.Sprintf("p%d=v%d", i, i))
+		}
+		pars = append(many, pars...)
 	}
 	// parameter order: the sender's rport / received may stand before or after branch
 	switch s.Val(v, "parorder") {
@@ -106,7 +125,7 @@ func c07Eval(v []int) (string, string, bool) {
 	if s.Val(v, "path") != "backend" {
 		pm := MsgSpec{Method: "OPTIONS", RURI: "sip:x@foreign.example.net", Vias: []string{"SIP/2.0/UDP " + nextHop + ";branch=z9hG4bKpre"},
 			From: "<sip:nh@nh.example.net>;tag=p", To: "<sip:x@nomatch.example.org>", CallID: "pre", CSeq: "1 OPTIONS"}.Build()
-		w.SendUDP(nextHop, "127.0.0.1:5060", pm.Render())
+		w.SendUDP(nextHop, preludeTo, pm.Render())
 	}
 	var conn *vnet.TCPConn
 	trueIP, truePort := srcIP, srcPort
@@ -241,7 +260,8 @@ func c07Eval(v []int) (string, string, bool) {
 		if conn != nil && arrival == "tcp-dialled-backend" && nextHop == "127.0.1.2:7000" {
 			return "", "", true
 		}
-		w.SendUDP(nextHop, "127.0.0.1:5060", resp.Render())
+		// the next hop answers to the address the proxy put into its own Via
+		w.SendUDP(nextHop, got[0].Host+":"+got[0].Port, resp.Render())
 		robs := w.Observe()
 		rdesc := func(what string) string {
 			o := "nothing"
@@ -252,9 +272,26 @@ func c07Eval(v []int) (string, string, bool) {
 		}
 		if enabled {
 			if conn != nil {
-				// TCP: the true source is the connection the request came on
-				if len(robs.Pkts) != 1 || robs.Pkts[0].Conn != conn.Peer().ID() {
-					return "response-not-to-true-source", rdesc("the response should be written on the connection the request arrived on"), true
+				// TCP: the true source is the connection the request came on (C12 demands exactly that
+				// connection; this statement is also met by a TCP connection attempt towards the true
+				// source address and - if rport was requested - true source port)
+				wantPort := truePort
+				if _, ok := findPar(in[0].Pars, "rport"); !ok {
+					wantPort, _ = strconv.Atoi(in[0].Port)
+				}
+				wantTo := fmt.Sprintf("%s:%d", trueIP, wantPort)
+				onConn := len(robs.Pkts) == 1 && robs.Pkts[0].Conn == conn.Peer().ID()
+				towards := len(robs.Pkts) == 0 && len(robs.Dials) >= 1
+				for _, d := range robs.Dials {
+					if d != wantTo {
+						towards = false
+					}
+				}
+				if len(robs.Pkts) == 1 && robs.Pkts[0].Proto == "tcp" && robs.Pkts[0].To == wantTo {
+					towards = true
+				}
+				if !onConn && !towards {
+					return "response-not-to-true-source", rdesc("the response should be written on the connection the request arrived on (or at least towards " + wantTo + " over TCP)"), true
 				}
 			} else {
 				wantPort := truePort
@@ -298,6 +335,8 @@ func init() {
 		{Name: "received", Vals: []string{"absent", "spoofed"}},
 		{Name: "layout", Vals: []string{"single", "two-entries", "two-lines", "compact"}, Quick: 2},
 		{Name: "path", Vals: []string{"backend", "route", "static"}},
+		{Name: "entries", Vals: []string{"one", "hop-behind-opposite-entry"}},
+		{Name: "manypars", Vals: []string{"no", "20-before"}},
 		{Name: "start", Vals: []string{"main", "startProxy"}, Quick: 1},
 		{Name: "burst", Vals: []string{"alone", "followed-by-other-source", "other-connection-accepted-meanwhile"}},
 		{Name: "parorder", Vals: []string{"branch-first", "branch-last", "reversed"}},
@@ -316,10 +355,16 @@ func init() {
 		if v[s.idx("parorder")] != 0 && v[s.idx("rport")] == 0 && v[s.idx("received")] == 0 {
 			return false
 		}
+		if v[s.idx("entries")] != 0 && (s.Val(v, "path") == "backend" || s.Val(v, "arrival") == "tcp-dialled-backend" || v[s.idx("burst")] != 0) {
+			return false
+		}
+		if v[s.idx("manypars")] != 0 && (v[s.idx("burst")] != 0 || v[s.idx("entries")] != 0) {
+			return false
+		}
 		return true
 	}
 	addCheck(&Check{ID: "C07", Level: "exploration",
-		Rule:   "complete product through the REAL main() with a YAML file (thorough: also through startProxy): no-received {absent,false,true} x arrival {UDP, accepted TCP connection, TCP connection the proxy dialled to a backend} x true source {plain, other address and high port, equal to the Via sent-by} x rport {absent, valueless, spoofed} x received {absent, spoofed} x Via layout x relaying path x {alone, immediately followed by a datagram from another source, another TCP connection accepted before the request is sent} x order of the sender's Via parameters (rport / received before or after branch); after the request, the next hop answers and the response is followed to the true source; non-trivial = request relayed",
+		Rule:   "complete product through the REAL main() with a YAML file (thorough: also through startProxy): no-received {absent,false,true} x arrival {UDP, accepted TCP connection, TCP connection the proxy dialled to a backend} x true source {plain, other address and high port, equal to the Via sent-by} x rport {absent, valueless, spoofed} x received {absent, spoofed} x Via layout x relaying path x {alone, immediately followed by a datagram from another source, another TCP connection accepted before the request is sent} x order of the sender's Via parameters (rport / received before or after branch) x {one listens entry, a second entry with the OPPOSITE received setting through which the next hop was learned} x {few Via parameters, 20 parameters ahead of rport / received}; after the request, the next hop answers and the response is followed to the true source; non-trivial = request relayed",
 		Assume: []string{"position of a newly added Via parameter is not prescribed (parameters of the sender's entry compared as a multiset)"},
 		Run:    func(c *Ctx) { c07Spec.Run(c); cleanupYamlFiles() },
 		Replay: func(c *Ctx, raw json.RawMessage) string { defer cleanupYamlFiles(); return c07Spec.Replay(raw) },
